@@ -563,6 +563,14 @@ func (v *verifier) processSignature(ctx context.Context, sigBlob []byte, envelop
 			return processPluginResponse(capabilitiesToVerify, response, outcome)
 		}
 	}
+
+	// the signature does not name a verification plugin, so nothing can process
+	// a critical extended attribute that notation itself does not know
+	if installedPlugin == nil {
+		if attrs := getUnknownCriticalExtendedAttributes(&outcome.EnvelopeContent.SignerInfo); len(attrs) > 0 {
+			return fmt.Errorf("extended critical attribute %q was not processed (all extended critical attributes must be processed, and the signature does not name a verification plugin)", attrs[0].Key)
+		}
+	}
 	return nil
 }
 
@@ -627,6 +635,15 @@ func processPluginResponse(capabilitiesToVerify []pluginframework.Capability, re
 
 	// verify all extended critical attributes are processed by the plugin
 	for _, attr := range getNonPluginExtendedCriticalAttributes(&outcome.EnvelopeContent.SignerInfo) {
+		if !slices.ContainsAny(response.ProcessedAttributes, attr.Key) {
+			return fmt.Errorf("extended critical attribute %q was not processed by the verification plugin %q (all extended critical attributes must be processed by the verification plugin)", attr.Key, verificationPluginName)
+		}
+	}
+
+	// critical extended attributes whose key is not a string (COSE labels can
+	// be integers) cannot be handed to the plugin, they must be reported as
+	// processed all the same
+	for _, attr := range getUnknownCriticalExtendedAttributes(&outcome.EnvelopeContent.SignerInfo) {
 		if !slices.ContainsAny(response.ProcessedAttributes, attr.Key) {
 			return fmt.Errorf("extended critical attribute %q was not processed by the verification plugin %q (all extended critical attributes must be processed by the verification plugin)", attr.Key, verificationPluginName)
 		}
